@@ -1,9 +1,78 @@
 ------------------------------ MODULE EncPcSpec ------------------------------
-(* C06, pairing-based protocols (second half of harness/drv_enc.c) *)
+(***************************************************************************)
+(* C06, pairing-based protocols and set intersection (second half of       *)
+(* harness/drv_enc.c), judged on their INPUT/OUTPUT contract:              *)
+(*   SOK key agreement   both parties derive the same key of the requested *)
+(*                       length                                            *)
+(*   Boneh-Franklin IBE  Dec(Enc(m)) = m for the admitted lengths 1..|H|,  *)
+(*                       other lengths and truncated ciphertexts refused   *)
+(*   BGN                 Dec(Enc(m)) = m in G1 and G2; sum in G1, product  *)
+(*                       through the pairing, sum of products in GT        *)
+(*   delegated pairing   honest helper: the client accepts and outputs     *)
+(*                       e(P, Q); ONE tampered response element: the       *)
+(*                       client REJECTS (verdict 0) and outputs the unit   *)
+(*   set intersection    the output is exactly X cap Y                     *)
+(*   pairing triples     c0 c1 = e(a0 + a1, b0 + b1); a pairing computed   *)
+(*                       from shares with the triple equals e(P, Q)        *)
+(* The group operations themselves are not re-derived here (pairing: C04,  *)
+(* groups: C03/C10); where a reference value is needed the library is its  *)
+(* own witness ("same", "tri", "map") - these schemes are listed as        *)
+(* completeness-only in the evidence.  The message-flow logic of the       *)
+(* delegation and intersection protocols is model-checked in model/Flows.  *)
+(***************************************************************************)
 EXTENDS EncSpec
 
-PcAccept(e) == FALSE
-PcOps == {}
+SokakaOk(e) == Succ(e) /\ e.over = 0 /\ Len(e.kA) = e.klen /\ e.kA = e.kB
+
+IbeEncOk(e) ==
+    /\ e.gen = 0 /\ e.over = 0 /\ e.crash = 0
+    /\ IF Len(e.m) >= 1 /\ Len(e.m) <= e.mdl /\ e.cap >= Len(e.m) + e.hdr
+       THEN Succ(e) /\ e.olen = Len(e.m) + e.hdr
+       ELSE Refused(e) /\ e.touched = 0
+IbeDecOk(e) ==
+    /\ e.over = 0 /\ e.crash = 0
+    /\ IF e.honest = 1 THEN Succ(e) /\ e.out = e.m0 /\ e.olen = Len(e.m0)
+       ELSE IF e.clen <= e.hdr \/ e.clen > e.mdl + e.hdr THEN Refused(e) /\ e.touched = 0      \* wrong length
+       ELSE TRUE
+
+BgnOk(e) ==
+    /\ Succ(e) /\ e.d1 = e.m1 /\ e.d2 = e.m2
+    /\ e.dsum = e.m1 + e.m2 /\ e.dmul = e.m1 * e.m2 /\ e.dadd = 2 * e.m1 * e.m2
+
+PdelRan(e) == e.ret = 0 /\ e.err = 0 /\ e.refunity = 0 /\ BnVal(e.c) # <<>>
+PdelOk(e) ==
+    /\ PdelRan(e)
+    /\ IF e.tamper < 0 THEN e.code = 0 /\ e.ver = 1 /\ e.same = 1
+       ELSE e.ver = 0 /\ e.same = 0 /\ e.unity = 1
+
+SetOf(s) == {BnVal(s[i]) : i \in 1..Len(s)}
+Distinct(s) == \A i, j \in 1..Len(s) : i # j => BnVal(s[i]) # BnVal(s[j])
+PsiOk(e) ==
+    /\ Succ(e) /\ Distinct(e.x) /\ Distinct(e.y)
+    /\ SetOf(e.z) = SetOf(e.x) \cap SetOf(e.y)
+    /\ Distinct(e.z) /\ e.len = Len(e.z)
+
+PctOk(e) == e.err = 0 /\ e.code = 0 /\ e.refunity = 0 /\ e.tri = 1 /\ e.bct = 1 /\ e.map = 1
+
+PcOps == {"sokaka", "ibe_enc", "ibe_dec", "bgn", "pdel", "psi", "pct"}
+PcAccept(e) ==
+    CASE e.op = "sokaka" -> SokakaOk(e)
+      [] e.op = "ibe_enc" -> IbeEncOk(e)
+      [] e.op = "ibe_dec" -> IbeDecOk(e)
+      [] e.op = "bgn" -> BgnOk(e)
+      [] e.op = "pdel" -> PdelOk(e)
+      [] e.op = "psi" -> PsiOk(e)
+      [] e.op = "pct" -> PctOk(e)
+      [] OTHER -> FALSE
 EncAccept(e) == IF e.op \in PcOps THEN PcAccept(e) ELSE CoreAccept(e)
-EncKnownKey(e) == CoreKnownKey(e)
+EncKnownKey(e) ==
+    IF e.op = "pdel"
+    THEN \* the verification fails (the output is the unit) but the function still reports success
+         IF PdelRan(e) /\ e.tamper >= 0 /\ e.ver = 1 /\ e.same = 0 /\ e.unity = 1
+         THEN "C06-pcdel-ver-reports-success-after-failed-check" ELSE ""
+    ELSE IF e.op = "psi"
+    THEN \* bn_lag yields the zero polynomial for no roots: with a one-element set the receiver's witness is the identity
+         IF e.kind = "pb" /\ Succ(e) /\ Len(e.x) = 1 /\ Distinct(e.y) /\ Len(e.z) = 0 /\ e.len = 0 /\ BnVal(e.x[1]) \in SetOf(e.y)
+         THEN "C06-pbpsi-singleton-set-never-intersects" ELSE ""
+    ELSE CoreKnownKey(e)
 =============================================================================
